@@ -26,6 +26,7 @@ import (
 	"go.uber.org/zap"
 
 	"github.com/mimiro-io/datahub/internal/conf"
+	"github.com/mimiro-io/datahub/internal/verifhook"
 )
 
 const datasetCore = "core.Dataset"
@@ -110,7 +111,9 @@ type UpdateDatasetConfig struct {
 }
 
 func (dsm *DsManager) CreateDataset(name string, createDatasetConfig *CreateDatasetConfig) (*Dataset, error) {
+	verifhook.Acquire(dsm.store.database, "dsm.lock", dsm)
 	dsm.lock.Lock()
+	defer verifhook.Release(dsm.store.database, "dsm.lock", dsm)
 	defer dsm.lock.Unlock()
 	exists := dsm.IsDataset(name)
 	if exists {
@@ -128,6 +131,7 @@ func (dsm *DsManager) CreateDataset(name string, createDatasetConfig *CreateData
 	if err != nil {
 		return nil, err
 	}
+	verifhook.Point(dsm.store.database, "CreateDataset.afterNextID")
 	if createDatasetConfig != nil {
 		ds.ProxyConfig = createDatasetConfig.ProxyDatasetConfig
 		ds.PublicNamespaces = createDatasetConfig.PublicNamespaces
@@ -142,6 +146,7 @@ func (dsm *DsManager) CreateDataset(name string, createDatasetConfig *CreateData
 
 	dsm.store.datasets.Store(name, ds)
 	dsm.store.datasetsByInternalID.Store(ds.InternalID, ds)
+	verifhook.Point(dsm.store.database, "CreateDataset.afterRecord")
 
 	// need to add the event publisher topic
 	dsm.logger.Infof("Registering dataset." + name)
@@ -163,7 +168,9 @@ func (dsm *DsManager) CreateDataset(name string, createDatasetConfig *CreateData
 }
 
 func (dsm *DsManager) UpdateDataset(name string, config *UpdateDatasetConfig) (*Dataset, error) {
+	verifhook.Acquire(dsm.store.database, "dsm.lock", dsm)
 	dsm.lock.Lock()
+	defer verifhook.Release(dsm.store.database, "dsm.lock", dsm)
 	defer dsm.lock.Unlock()
 	if name == datasetCore {
 		return nil, errors.New("cannot update " + datasetCore)
@@ -174,7 +181,9 @@ func (dsm *DsManager) UpdateDataset(name string, config *UpdateDatasetConfig) (*
 	}
 
 	ds := dsm.GetDataset(name)
+	verifhook.Acquire(dsm.store.database, "dataset.write", ds)
 	ds.WriteLock.Lock()
+	defer verifhook.Release(dsm.store.database, "dataset.write", ds)
 	defer ds.WriteLock.Unlock()
 
 	// new ID means rename
@@ -197,6 +206,7 @@ func (dsm *DsManager) UpdateDataset(name string, config *UpdateDatasetConfig) (*
 			return nil, err
 		}
 
+		verifhook.Point(dsm.store.database, "UpdateDataset.afterMove")
 		// update in local cache
 		dsm.store.datasets.Delete(name)
 		dsm.store.datasets.Store(newName, ds)
@@ -223,6 +233,7 @@ func (dsm *DsManager) UpdateDataset(name string, config *UpdateDatasetConfig) (*
 		if err != nil {
 			return nil, err
 		}
+		verifhook.Point(dsm.store.database, "UpdateDataset.afterTombstone")
 		entity.IsDeleted = false
 		entity.ID = dsInfo.DatasetPrefix + ":" + newName
 		entity.Properties[dsInfo.NameKey] = newName
@@ -237,7 +248,9 @@ func (dsm *DsManager) UpdateDataset(name string, config *UpdateDatasetConfig) (*
 
 // DeleteDataset deletes dataset if it exists
 func (dsm *DsManager) DeleteDataset(name string) error {
+	verifhook.Acquire(dsm.store.database, "dsm.lock", dsm)
 	dsm.lock.Lock()
+	defer verifhook.Release(dsm.store.database, "dsm.lock", dsm)
 	defer dsm.lock.Unlock()
 	if name == datasetCore {
 		return errors.New("cannot delete " + datasetCore)
@@ -260,6 +273,7 @@ func (dsm *DsManager) DeleteDataset(name string) error {
 	if err != nil {
 		return err
 	}
+	verifhook.Point(dsm.store.database, "DeleteDataset.afterRecordDelete")
 
 	// record we deleted it.
 	// swap map out with new modified copy of map to avoid concurrent read/write issues which can occur if
@@ -275,6 +289,7 @@ func (dsm *DsManager) DeleteDataset(name string) error {
 		return err
 	}
 
+	verifhook.Point(dsm.store.database, "DeleteDataset.afterDeletedSet")
 	dsm.eb.UnregisterTopic(name) // unregister event-handler on this topic. Note that subscriptions are left.
 
 	// also delete the associated entity
